@@ -86,23 +86,33 @@ def run_case(i, tier, seed):
             variants.append((role, n, c))
     for role, n in [("summary", "summary.txt"), ("vol", names["vol"]), ("led", names["led"])] + [("img", n) for n in names["imgs"]]:
         variants.append((role, n, None))
-    root = harness.unique_root("vfs")
+    # missing files are tried on every kind of filesystem (they report absence differently: FileNotFoundError, KeyError in
+    # archives, ...); truncations on the tracing filesystem and, for a quarter of the products, inside a zip archive
+    expanded = []
+    for role, n, cut in variants:
+        if cut is None:
+            expanded += [(role, n, cut, k) for k in ("vfs", "zip", "local", "memory", "lvfs")]
+        else:
+            expanded.append((role, n, cut, "zip" if (i % 4 == 1 and rng.random() < 0.5) else "vfs"))
+    roots = {k: harness.unique_root(k) for k in ("vfs", "zip", "local", "memory", "lvfs")}
     sample = None
     try:
-        for role, n, cut in variants:
+        for role, n, cut, kind in expanded:
+            root = roots[kind]
             damaged = dict(files)
             if cut is None:
                 del damaged[n]
             else:
                 damaged[n] = files[n][:cut]
-            synth.uninstall(files, root, "vfs")
-            url = synth.install(damaged, root, "vfs")
+            synth.uninstall(files, root, kind)
+            url = synth.install(damaged, root, kind)
+            obs["fs:" + kind] = obs.get("fs:" + kind, 0) + 1
             lines = max(g[0] for g in geoms)
             rpc = rng.choice([1, max(1, lines - 1), lines, lines + 1, 1024])
             tracefs.reset_log()
             obs["variants"] += 1
             cls = "missing" if cut is None else cut_class(role, cut, len(files[n]), refdec.image(files[n]) if role == "img" else None)
-            sigs.append(f"{role}|{cls}|rpc:{harness.rpc_class(rpc, lines)}")
+            sigs.append(f"{role}|{cls}|rpc:{harness.rpc_class(rpc, lines)}|{kind}")
             outcome = None
             try:
                 tree = harness.open_tree(url, records_per_chunk=rpc)
@@ -114,10 +124,10 @@ def run_case(i, tier, seed):
             if cut is None:
                 obs["missing_file_variants"] += 1
                 if outcome[0] == "returned":
-                    violations.append({"what": f"open_alos2 returned although {role} file {n} is missing", "detail": {}})
+                    violations.append({"what": f"open_alos2 returned although {role} file {n} is missing ({kind})", "detail": {}})
                 elif not isinstance(outcome[1], OSError):
-                    violations.append({"what": f"missing {role} file reported as {type(outcome[1]).__name__}, not an OSError: {harness.exc_sig(outcome[1])}",
-                                       "detail": {"file": n}})
+                    violations.append({"what": f"missing {role} file on {kind} reported as {type(outcome[1]).__name__}, not an OSError: {harness.exc_sig(outcome[1])}",
+                                       "detail": {"file": n, "fs": kind}})
             else:
                 obs[{"img": "image_truncations", "led": "leader_truncations", "vol": "volume_truncations"}[role]] += 1
                 if outcome[0] == "returned":
@@ -138,7 +148,7 @@ def run_case(i, tier, seed):
                             detail["inspect"] = harness.exc_sig(e)
                     violations.append({"what": f"open_alos2 returned a tree although {role} file was cut at byte {cut} of {len(files[n])} ({cls})",
                                        "detail": detail})
-                if role == "img":
+                if role == "img" and kind == "vfs":
                     im = refdec.image(files[n])
                     path = f"{root}/{n}"
                     rd = [e for e in open_log if e[0] == "read" and e[1] == path]
@@ -151,7 +161,8 @@ def run_case(i, tier, seed):
             if sample is None and cut is not None and role == "img" and outcome[0] == "raised":
                 sample = {"file_role": role, "cut_at": cut, "of": len(files[n]), "class": cls, "rpc": rpc, "outcome": harness.exc_sig(outcome[1])}
     finally:
-        synth.uninstall(files, root, "vfs")
+        for k, r in roots.items():
+            synth.uninstall(files, r, k)
     return {"sig": sigs, "evals": obs["variants"], "violations": violations[:12], "obs": obs, "sample": sample}
 
 
